@@ -226,7 +226,11 @@ class Sim(object):
         if pipes or udp:
             acts.append('deliver')
 
-        if self.policy in ('eager', 'rr') and 'deliver' in acts:
+        if self.deliver_latency_ns and 'iter' in acts and not self._latency_spin():
+            # with a network delay, octets arrive only after everything that is runnable NOW has run: local work takes no
+            # (virtual) time, so a due timer or an idle callback is never overtaken by a delivery that lies in the future
+            choice = 'iter'
+        elif self.policy in ('eager', 'rr') and 'deliver' in acts:
             choice = 'deliver'
         elif self.policy == 'lazy' and 'iter' in acts and (len(acts) == 1 or rng.random() < 0.9):
             # a slow network, but never one that stops delivering (that would be an unfair schedule)
@@ -237,13 +241,19 @@ class Sim(object):
             choice = 'iter' if rng.random() < 0.6 else 'deliver'
 
         if choice == 'deliver':
-            if udp and (not pipes or rng.random() < 0.5):
+            if self.deliver_latency_ns:
+                # one network tick: every link carries what it holds in parallel, then the one-way delay has passed once
+                # (serving a single link per tick would starve the other direction of a session that never falls silent)
+                for pipe in pipes:
+                    pipe.deliver(self._deliver_amount(pipe))
+                if udp:
+                    self.net.udp_deliver_one(0)
+                self.world.advance_to(self.world.now_ns + self.deliver_latency_ns)
+            elif udp and (not pipes or rng.random() < 0.5):
                 self.net.udp_deliver_one(0)
             else:
                 pipe = pipes[0] if self.policy in ('eager', 'rr') else rng.choice(pipes)
                 pipe.deliver(self._deliver_amount(pipe))
-            if self.deliver_latency_ns:
-                self.world.advance_to(self.world.now_ns + self.deliver_latency_ns)
             self._note_state()
             return 'deliver'
 
@@ -251,6 +261,20 @@ class Sim(object):
         node.iteration()
         self._note_state()
         return 'iter'
+
+    def _latency_spin(self):
+        ''' True when only idle sources are ready and they have stopped changing anything (so waiting for them is pointless). '''
+        if not self.only_idle_ready():
+            self._lat_fp = None
+            self._lat_count = 0
+            return False
+        fp = self._fingerprint()
+        if fp == getattr(self, '_lat_fp', None):
+            self._lat_count = getattr(self, '_lat_count', 0) + 1
+        else:
+            self._lat_fp = fp
+            self._lat_count = 0
+        return self._lat_count >= 6 * max(1, len(self.world.nodes))
 
     def _pick_node(self, nodes):
         rng = self.rng
